@@ -686,6 +686,20 @@ class Exec(object):
             if r[0] == 'exc':
                 outs.append((s1, r)); continue
             spine = self.spine(s1, r[1])
+            if spine is None and isinstance(e, ast.DictComp) and not g.ifs:
+                # {K: V for T in XS} is, element for element, `acc = {}; for T in XS: acc[K] = V` run in a scope of its own (the comprehension's
+                # variables do not leak): executed that way, so that the sidecar's loop invariant for the statement form applies
+                s1.push({'__comp_iterable': r[1]}, s1.stack[-1], s1.ctx)
+                acc = ast.Name(id='__comp_acc', ctx=ast.Store())
+                stmts = [ast.Assign(targets=[acc], value=ast.Dict(keys=[], values=[])),
+                         ast.For(target=g.target, iter=ast.Name(id='__comp_iterable', ctx=ast.Load()),
+                                 body=[ast.Assign(targets=[ast.Subscript(value=ast.Name(id='__comp_acc', ctx=ast.Load()), slice=e.key, ctx=ast.Store())], value=e.value)], orelse=[])]
+                for st_ in stmts:
+                    ast.copy_location(st_, e); ast.fix_missing_locations(st_)
+                for s2, oc in self.block(stmts, s1):
+                    v = s2.lookup('__comp_acc'); s2.pop()
+                    outs.append((s2, ('val', v)) if oc[0] == 'normal' else (s2, ('exc', oc[1])) if oc[0] == 'raise' else (s2, ('exc', s2.exc_obj('RuntimeError'))))
+                continue
             if spine is None:
                 raise Unsupported('comprehension over a symbolic sequence without a summary: ' + ast.unparse(e))
             fid = s1.push({}, s1.stack[-1], s1.ctx)
